@@ -1,5 +1,5 @@
 import MuscleModel.Pulse.Ops
-import MuscleModel.Pulse.Proofs4
+import MuscleModel.Pulse.Proofs7
 
 /-!
 # C20 — Pulse callbacks fire for every due node and never before their time
@@ -12,11 +12,12 @@ answers next plus, per callback, a list of re-entrant actions (invalidate, chang
 
 What is proved in full, for EVERY history and EVERY script (attach/detach from inside callbacks included):
 `never_early`, `fires_with_asked_time`, `fired_only_due_once_per_request` (soundness half of
-"fires iff due"), `fired_loses_request`, `sorted_insert`, `sorted_preserved` (public operations and the
-pulse sweep), the local firing / asking rules.  What is proved only in part is named `…_partial`, and the
+"fires iff due"), `fired_loses_request`, `sorted_insert`, `needsrecalc_reaches_root`, the local firing / asking rules; the structural
+invariant `Inv` is preserved by every public operation (destroy included) and by the whole pulse sweep with arbitrary
+scripts (`inv_preserved_partial`: only the `GetPulseTimeAux` sweep and acyclicity are missing).  What is proved only in part is named `…_partial`, and the
 full statement is kept in the comment in front of it.
 
-Open finding F25 (DESIGN §7 numbering continued; `corpus/C20/pn-inprogress-invalidate.ops`): the full
+Open finding `C20-lost-invalidate` (called F25 in the harness tag; `corpus/C20/pn-inprogress-invalidate.ops`): the full
 "asked again before the next wait" statement is FALSE for the code as it is — a re-entrant
 `InvalidatePulseTime()` of a node whose own `GetPulseTimeAux` is in progress is lost.  The model mirrors
 the code, so no theorem here claims it.
@@ -46,43 +47,76 @@ theorem walk_stays_inside (a : Nat → Nat) (c last : Nat) (l : List Nat)
     `Inv` = acyclic ∧ (c in list l of p ↔ c.curList = l ∧ c.parent = p) ∧ SCHEDULED lists sorted by aggregate
     ∧ (c in NEEDSRECALC of p → p in NEEDSRECALC of its parent or p is a root)
     ∧ (c in SCHEDULED → c.agg = subtree minimum < never) ∧ (c in UNSCHEDULED → subtree minimum = never).
-    PROVED HERE: the sortedness component, for attach / detach / invalidate / change of request / scripts and the
-    whole pulse sweep with arbitrary re-entrant scripts.  MISSING: the membership/`curList` agreement, acyclicity and
-    marking components; `destroy` (the fresh object's aggregate) and the `GetPulseTimeAux` sweep (it changes an
-    aggregate and then re-files the node: sortedness there needs the membership component). -/
+    PROVED HERE, for `Inv never f` (`Pulse/Proofs5.lean`): list membership ↔ (`_parent`, `_curList`) in both directions, no
+    duplicates, roots are in no list and non-roots in exactly one, a non-root node with a child in NEEDSRECALC is itself in
+    NEEDSRECALC (so the flag reaches the root: `needsrecalc_reaches_root`), every filed (SCHEDULED/UNSCHEDULED) node has
+    `agg ≤ myTime`, `agg ≤` first scheduled child's aggregate, `agg = min(myTime, first scheduled child)` while its request
+    stands, SCHEDULED ↔ `agg ≠ never`, all aggregates `≤ never`, all SCHEDULED lists sorted —
+    preserved by attach, detach, DESTROY, invalidate, change of request, scripts, and by the WHOLE PULSE SWEEP with
+    arbitrary re-entrant scripts (invalidate/attach/detach from inside `Pulse`).
+    MISSING: the `GetPulseTimeAux` sweep (needs: a node is not re-filed while its own frame is active — false for scripts
+    that re-attach an in-progress node, see the report) and acyclicity as a rank function. -/
 theorem inv_preserved_partial (never d k : Nat) (w w' : World) (r : Res) (o : Op)
-    (hg : ∀ root now, o ≠ .gpt root now) (hd : ∀ c, o ≠ .destroy c) (hs : AllSorted w.f)
-    (h : applyOp never d k w o = some (w', r)) : AllSorted w'.f := by
+    (hg : ∀ root now, o ≠ .gpt root now) (hi : Inv never w.f)
+    (h : applyOp never d k w o = some (w', r)) : Inv never w'.f := by
   cases o with
   | attach c p =>
     simp only [applyOp] at h
     split at h
-    · cases h; exact hs
+    · cases h; exact hi
     · simp only [Option.map_eq_some_iff] at h
       obtain ⟨f', hf, he⟩ := h; cases he
-      exact putChild_allSorted never d w.f p c f' hs hf
+      exact putChild_inv never d w.f p c f' hi hf
   | detach c =>
     simp only [applyOp, Option.map_eq_some_iff] at h
     obtain ⟨f', hf, he⟩ := h; cases he
-    exact detach_allSorted never d w.f c f' hs hf
-  | destroy c => exact absurd rfl (hd c)
+    exact detach_inv never d w.f c f' hi hf
+  | destroy c =>
+    simp only [applyOp, Option.map_eq_some_iff] at h
+    obtain ⟨f', hf, he⟩ := h; cases he
+    exact destroy_inv never d w.f c f' hi hf
   | inval c clear =>
     simp only [applyOp, Option.map_eq_some_iff] at h
     obtain ⟨f', hf, he⟩ := h; cases he
-    exact invalidate_allSorted never d w.f c clear f' hs hf
-  | setReq c t => simp only [applyOp] at h; cases h; exact hs
-  | script g c acts => cases g <;> (simp only [applyOp] at h; cases h; exact hs)
+    exact invalidate_inv never d w.f c clear f' hi hf
+  | setReq c t => simp only [applyOp] at h; cases h; exact hi
+  | script g c acts => cases g <;> (simp only [applyOp] at h; cases h; exact hi)
   | gpt root now => exact absurd rfl (hg root now)
   | pulse root now =>
     simp only [applyOp] at h
     split at h
-    · cases h; exact hs
+    · cases h; exact hi
     · simp only [Option.map_eq_some_iff] at h
       obtain ⟨w1, hf, he⟩ := h; cases he
       simp only [managerPulse] at hf
       split at hf
-      · exact (pulse_allSorted never d k).1 w _ root now hs hf
-      · cases hf; exact hs
+      · exact (pulse_inv never d k).1 w _ root now hi hf
+      · cases hf; exact hi
+
+/-- the initial state (16 newly constructed nodes … any number) satisfies the invariant -/
+theorem inv_init (never : Nat) : Inv never (World.init never).f := by
+  refine ⟨⟨?_, ?_, ?_, ?_, ?_, ?_, ?_, ?_, ?_⟩, fun _ => by simp [World.init, Node.fresh, Sorted]⟩
+  · intro q x l hx; cases l <;> simp [World.init, Node.fresh, Node.list] at hx
+  · intro q l; cases l <;> simp [World.init, Node.fresh, Node.list]
+  · intro x q l _ hp; simp [World.init, Node.fresh] at hp
+  · intro x hx; exact hx.elim
+  · intro x _; simp [World.init, Node.fresh]
+  · intro x q hp; simp [World.init, Node.fresh] at hp
+  · intro x q hp; simp [World.init, Node.fresh] at hp
+  · intro x _ hf; obtain ⟨⟨q, hq⟩, _⟩ := hf; simp [World.init, Node.fresh] at hq
+  · intro x; simp [World.init, Node.fresh]
+
+/-- in every state that satisfies the invariant, a node flagged NEEDSRECALC is in its parent's NEEDSRECALC list and the
+    parent, unless it is a root, is flagged too: the flag propagates all the way to the root, which is what makes the
+    next `GetPulseTimeAux` sweep from the root reach the node -/
+theorem needsrecalc_reaches_root (never : Nat) (f : Forest) (hi : Inv never f) (x q : Nat)
+    (hp : (f x).parent = some q) (hc : (f x).cur = some .recalc) :
+    x ∈ (f q).recalc ∧ ∀ g, (f q).parent = some g → (f q).cur = some .recalc := by
+  have hm : x ∈ (f q).list .recalc := hi.1.complete x q .recalc (fun h => h) hp hc
+  refine ⟨hm, fun g hg => hi.1.marked q g hg ?_⟩
+  intro he
+  have : x ∈ (f q).recalc := hm
+  rw [he] at this; cases this
 
 example : AllSorted (World.init 100).f := fun _ => by simp [World.init, Node.fresh, Sorted]
 
